@@ -2334,7 +2334,7 @@ static std::string mutateMat(AMatrix& a, const Mut& m)
   {
     case 0: a.setValue(m.a % nr, m.b % nc, m.v + 100.); return "setValue";
     case 1: a.prodScalar(m.v + 1.); return "prodScalar";
-    case 2: a.addScalarDiag(m.v); return "addScalarDiag";
+    case 2: if (nr != nc) return ""; a.addScalarDiag(m.v); return "addScalarDiag";
     default: a.fill(m.v); return "fill";
   }
 }
@@ -2493,7 +2493,7 @@ static void copyBody(const CopyCase& c, Ctx& ctx, const std::function<void(const
       copyScenario<MatrixSparse>(c, ctx, mk(c.a1, c.nr, c.nc), mk(c.a2, c.nc, c.nr), [](const MatrixSparse& a) { return serMat(&a); },
                                  [](MatrixSparse& a, const Mut& m) -> std::string {
                                    // only entries of the pattern can be set; scaling is always possible
-                                   if (m.op % 2 == 0) { a.prodScalar(m.v + 1.); return "prodScalar"; }
+                                   if (m.op % 2 == 0 || a.getNRows() != a.getNCols()) { a.prodScalar(m.v + 1.); return "prodScalar"; }
                                    a.addScalarDiag(m.v);
                                    return "addScalarDiag";
                                  },
